@@ -779,6 +779,7 @@ let run_case (t : string list) : string =
         | [ "N" ] -> ShutdownTrace.TAcceptNone
         | [ "R"; reply; ok; reg; peer ] -> ShutdownTrace.TConnResult (b reply, b ok, b reg, n_of_string peer)
         | [ "D"; peer ] -> ShutdownTrace.TDisconnect (n_of_string peer)
+        | [ "a"; h ] -> ShutdownTrace.TStreamArrive (n_of_string h)
         | [ "q+"; h ] -> ShutdownTrace.TReqStart (n_of_string h)
         | [ "q-"; h ] -> ShutdownTrace.TReqEnd (n_of_string h)
         | [ "X"; h ] -> ShutdownTrace.THExit (n_of_string h)
